@@ -6,6 +6,7 @@ package main
 import (
 	"errors"
 	"fmt"
+	"sort"
 	"strings"
 
 	"foxverif/hx"
@@ -14,11 +15,14 @@ import (
 	"github.com/tigerwill90/fox"
 )
 
+type forcedStep struct{ kind, method, pat string }
+
 type world struct {
-	f    *fox.Router
-	txn  *fox.Txn
-	rid  map[*fox.Route]uint64
-	next uint64
+	obsCount int
+	f        *fox.Router
+	txn      *fox.Txn
+	rid      map[*fox.Route]uint64
+	next     uint64
 }
 
 func (w *world) handler() (fox.HandlerFunc, uint64) {
@@ -32,8 +36,33 @@ func (w *world) dump() (*fox.VerifTree, []string, int) {
 	var ln int
 	if w.txn != nil {
 		t = w.txn.VerifDump()
-		for m, r := range w.txn.Iter().All() {
-			all = append(all, "("+hx.Bytes(m)+", "+hx.Bytes(r.Pattern())+", "+hx.N(w.rid[r])+")")
+		w.obsCount++
+		if w.obsCount%4 == 0 {
+			// Txn.Iter() takes a snapshot, which resets the transaction's copy-on-write cache: observing
+			// through it after every step would hide aliasing slips, so it is used only now and then
+			for m, r := range w.txn.Iter().All() {
+				all = append(all, "("+hx.Bytes(m)+", "+hx.Bytes(r.Pattern())+", "+hx.N(w.rid[r])+")")
+			}
+		} else {
+			// the same list read off the dump (pre-order of every non-empty method root), no side effect
+			byAddr := map[uintptr]uint64{}
+			for r, id := range w.rid {
+				byAddr[fox.VerifRouteAddr(r)] = id
+			}
+			var walk func(m string, n *fox.VerifNode)
+			walk = func(m string, n *fox.VerifNode) {
+				if n.Leaf {
+					all = append(all, "("+hx.Bytes(m)+", "+hx.Bytes(n.Pattern)+", "+hx.N(byAddr[n.RouteAddr])+")")
+				}
+				for _, c := range n.Children {
+					walk(m, c)
+				}
+			}
+			for _, root := range t.Roots {
+				if len(root.Children) > 0 {
+					walk(root.Key, root)
+				}
+			}
 		}
 		ln = w.txn.Len()
 	} else {
@@ -153,8 +182,9 @@ func main() {
 		}
 		var ops []string
 		var human []string
+		var forced []forcedStep
 		okWrites, fails := 0, 0
-		for si := 0; si < steps; si++ {
+		for si := 0; si < steps || len(forced) > 0; si++ {
 			kind := ""
 			switch r := rnd.Intn(100); {
 			case r < 38:
@@ -183,14 +213,37 @@ func main() {
 				method = hx.Pick(rnd, []string{"", "get", "G3T"})
 			}
 			pat := hx.Pick(rnd, pool)
-			if (kind == "KDelete" || kind == "KUpdate") && rnd.Pct(55) {
+			if hi%5 == 4 && si == 3 && w.txn == nil {
+				// scripted scenario: nested routes committed one by one, then ONE cached transaction that
+				// updates an inner route (a node with children) and writes below it, ended by abort or commit
+				pre := hx.Pick(rnd, []string{"/foo", "/n/{x}", "a.b/foo"})
+				below := hx.Pick(rnd, [][2]string{{"KHandle", "/baz"}, {"KDelete", "/bar"}, {"KUpdate", "/bar"}, {"KHandle", "/bar/y"}, {"KDelete", "/bar/x"}})
+				end := "KAbort"
+				if rnd.Pct(30) {
+					end = "KCommit"
+				}
+				forced = append(forced, forcedStep{"KHandle", "GET", pre}, forcedStep{"KHandle", "GET", pre + "/bar"},
+					forcedStep{"KHandle", "GET", pre + "/bar/x"}, forcedStep{"KBegin", "GET", pre},
+					forcedStep{"KUpdate", "GET", pre}, forcedStep{below[0], "GET", pre + below[1]}, forcedStep{end, "GET", pre},
+					forcedStep{"KDelete", "GET", pre + "/bar/x"})
+				st.Count("scenario:nested-update-then-write-below")
+			}
+			isForced := false
+			if len(forced) > 0 {
+				kind, method, pat = forced[0].kind, forced[0].method, forced[0].pat
+				forced = forced[1:]
+				isForced = true
+				if (kind == "KCommit" || kind == "KAbort") && w.txn == nil {
+					kind = "KDelete"
+				}
+				if kind == "KBegin" && w.txn != nil {
+					kind = "KUpdate"
+				}
+			}
+			if !isForced && (kind == "KDelete" || kind == "KUpdate") && rnd.Pct(55) {
 				// aim at a registered route of the visible state
 				var regs [][2]string
-				it := f.Iter()
-				if w.txn != nil {
-					it = w.txn.Iter()
-				}
-				for m, r := range it.All() {
+				for m, r := range f.Iter().All() { // published routes only: no snapshot of the open transaction
 					regs = append(regs, [2]string{m, r.Pattern()})
 				}
 				if len(regs) > 0 {
@@ -198,7 +251,7 @@ func main() {
 					method, pat = e[0], e[1]
 				}
 			}
-			if rnd.Pct(5) {
+			if !isForced && rnd.Pct(5) {
 				pat = hx.Pick(rnd, []string{"", "a", "/{", "/*{}", "/a{x}b", "/{x}{y}", "/*{a}/*{b}", "a..b/", "-a/"})
 			}
 			var tm []string
@@ -358,17 +411,90 @@ type entry struct {
 	method, pat string
 }
 
-func mutate(rnd *hx.Rand, f *fox.Router, pool []string, methods []string, steps int) {
+// tracker keeps, independently of the router, the set of routes that COMMITTED successful operations
+// registered: what a sequential map would hold. An aborted transaction must leave it unchanged.
+type tracker struct {
+	committed map[[2]string]bool
+	pending   map[[2]string]bool // inside an open transaction
+}
+
+func newTracker() *tracker { return &tracker{committed: map[[2]string]bool{}} }
+func (t *tracker) cur() map[[2]string]bool {
+	if t.pending != nil {
+		return t.pending
+	}
+	return t.committed
+}
+func (t *tracker) begin() {
+	t.pending = map[[2]string]bool{}
+	for k := range t.committed {
+		t.pending[k] = true
+	}
+}
+func (t *tracker) commit() { t.committed, t.pending = t.pending, nil }
+func (t *tracker) abort()  { t.pending = nil }
+func (t *tracker) add(m, p string, err error) {
+	if err == nil {
+		t.cur()[[2]string{m, p}] = true
+	}
+}
+func (t *tracker) del(m, p string, err error) {
+	if err == nil {
+		delete(t.cur(), [2]string{m, p})
+	}
+}
+func (t *tracker) truncate(m string) {
+	for k := range t.cur() {
+		if k[0] == m {
+			delete(t.cur(), k)
+		}
+	}
+}
+
+func mutate(rnd *hx.Rand, f *fox.Router, pool []string, methods []string, steps int, tr *tracker) {
 	var txn *fox.Txn
+	if rnd.Pct(35) {
+		// nested routes, then a cached transaction updating an inner route and writing below it, aborted
+		pre := hx.Pick(rnd, []string{"/foo", "/n/{x}", "a.b/foo"})
+		m := methods[0]
+		for _, p := range []string{pre, pre + "/bar", pre + "/bar/x"} {
+			_, err := f.Handle(m, p, rt.Noop)
+			tr.add(m, p, err)
+		}
+		t := f.Txn(true)
+		tr.begin()
+		t.Update(m, pre, rt.Noop)
+		switch rnd.Intn(3) {
+		case 0:
+			_, err := t.Handle(m, pre+"/baz", rt.Noop)
+			tr.add(m, pre+"/baz", err)
+		case 1:
+			_, err := t.Delete(m, pre+"/bar")
+			tr.del(m, pre+"/bar", err)
+		default:
+			t.Update(m, pre+"/bar", rt.Noop)
+			_, err := t.Delete(m, pre+"/bar/x")
+			tr.del(m, pre+"/bar/x", err)
+		}
+		if rnd.Pct(75) {
+			t.Abort()
+			tr.abort()
+		} else {
+			t.Commit()
+			tr.commit()
+		}
+	}
 	for i := 0; i < steps; i++ {
 		m, p := hx.Pick(rnd, methods), hx.Pick(rnd, pool)
 		switch r := rnd.Intn(100); {
 		case r < 45:
+			var err error
 			if txn != nil {
-				txn.Handle(m, p, rt.Noop)
+				_, err = txn.Handle(m, p, rt.Noop)
 			} else {
-				f.Handle(m, p, rt.Noop)
+				_, err = f.Handle(m, p, rt.Noop)
 			}
+			tr.add(m, p, err)
 		case r < 55:
 			if txn != nil {
 				txn.Update(m, p, rt.Noop)
@@ -376,30 +502,37 @@ func mutate(rnd *hx.Rand, f *fox.Router, pool []string, methods []string, steps 
 				f.Update(m, p, rt.Noop)
 			}
 		case r < 82:
+			var err error
 			if txn != nil {
-				txn.Delete(m, p)
+				_, err = txn.Delete(m, p)
 			} else {
-				f.Delete(m, p)
+				_, err = f.Delete(m, p)
 			}
+			tr.del(m, p, err)
 		case r < 85:
 			if txn != nil {
 				txn.Truncate(m)
 			} else {
 				f.Updates(func(t *fox.Txn) error { return t.Truncate(m) })
 			}
+			tr.truncate(m)
 		case r < 93:
 			if txn == nil {
 				txn = f.Txn(true)
+				tr.begin()
 			} else if rnd.Bool() {
 				txn.Commit()
+				tr.commit()
 				txn = nil
 			} else {
 				txn.Abort()
+				tr.abort()
 				txn = nil
 			}
 		default:
 			if txn != nil {
 				txn.Abort()
+				tr.abort()
 				txn = nil
 			}
 		}
@@ -407,8 +540,10 @@ func mutate(rnd *hx.Rand, f *fox.Router, pool []string, methods []string, steps 
 	if txn != nil {
 		if rnd.Bool() {
 			txn.Commit()
+			tr.commit()
 		} else {
 			txn.Abort()
+			tr.abort()
 		}
 	}
 }
@@ -436,7 +571,7 @@ func runC07(out, tier string, shards int, rnd *hx.Rand) {
 					// the implementation panicked (or corrupted itself so badly that the harness could not
 					// continue): that is a failing history by itself
 					cs.Add("{| c7_set := []; c7_treeA := []; c7_treeB := [Node (S2B \"panic\") None []]; c7_depthB := 0; c7_maxpB := 0; c7_probes_equal := false |}",
-						fmt.Sprintf("IMPLEMENTATION PANIC %v after: %s", r, strings.Join(trace, " ; ")))
+						fmt.Sprintf("FAILING HISTORY (the implementation panicked, or router A lost / leaked a route): %v after: %s", r, strings.Join(trace, " ; ")))
 					st.Count("case:panic")
 				}
 			}()
@@ -464,32 +599,53 @@ func runC07(out, tier string, shards int, rnd *hx.Rand) {
 				st.Count("pool:siblings")
 			}
 			before := a.Len()
+			tr := newTracker()
 			if ci%3 == 1 {
 				// scripted prelude: k siblings committed one by one, then an ABORTED transaction inserting
 				// siblings that sort before them (a copy-on-write slip corrupts the live tree here)
 				k := rnd.Range(3, 7)
 				trace = append(trace, fmt.Sprintf("Handle %v one by one; then a transaction inserting %v and %q, aborted with probability 3/4", pool[:min(k, len(pool))], pool[min(k, len(pool)):], pool[0][:len(pool[0])-1]+"A"))
 				for i := 0; i < k && i < len(pool); i++ {
-					a.Handle(methods[0], pool[i], rt.Noop)
+					_, err := a.Handle(methods[0], pool[i], rt.Noop)
+					tr.add(methods[0], pool[i], err)
 				}
 				txn := a.Txn(true)
+				tr.begin()
 				for i := k; i < len(pool); i++ {
-					txn.Handle(methods[0], pool[i], rt.Noop)
+					_, err := txn.Handle(methods[0], pool[i], rt.Noop)
+					tr.add(methods[0], pool[i], err)
 				}
-				txn.Handle(methods[0], pool[0][:len(pool[0])-1]+"A", rt.Noop)
+				extra := pool[0][:len(pool[0])-1] + "A"
+				_, err := txn.Handle(methods[0], extra, rt.Noop)
+				tr.add(methods[0], extra, err)
 				if rnd.Pct(75) {
 					txn.Abort()
+					tr.abort()
 				} else {
 					txn.Commit()
+					tr.commit()
 				}
-				mutate(rnd, a, pool, methods, rnd.Range(0, 6))
+				mutate(rnd, a, pool, methods, rnd.Range(0, 6), tr)
 			} else {
-				mutate(rnd, a, pool, methods, rnd.Range(10, 60))
+				mutate(rnd, a, pool, methods, rnd.Range(10, 60), tr)
 			}
 			_ = before
 			var set []entry
+			listed := map[[2]string]bool{}
 			for m, r := range a.Iter().All() {
-				set = append(set, entry{m, r.Pattern()})
+				listed[[2]string{m, r.Pattern()}] = true
+			}
+			for k := range tr.committed {
+				set = append(set, entry{k[0], k[1]})
+			}
+			sort.Slice(set, func(i, j int) bool { return set[i].method+" "+set[i].pat < set[j].method+" "+set[j].pat })
+			if len(listed) != len(tr.committed) {
+				panic(fmt.Sprintf("router A lists %d routes but the committed operations registered %d: listed=%v committed=%v", len(listed), len(tr.committed), listed, tr.committed))
+			}
+			for k := range tr.committed {
+				if !listed[k] {
+					panic(fmt.Sprintf("router A does not list the committed route %v", k))
+				}
 			}
 			// random permutation
 			for i := len(set) - 1; i > 0; i-- {
